@@ -97,6 +97,15 @@ def cases(tier, seed):
             for ctl in ("Fixed", "Exact", "DistanceRatio"):
                 c = default(); c["penalty"] = pen; c["control"] = ctl; c["iteration_limit"] = H
                 out.append({"spec": spec, "cfg": c, "sc": None})
+    # very long runs of tiny steps (fixed step size 1/1000, tens of thousands of iterations), both precisions: accumulated quantities
+    for spec in (G.raw(1, {"H": [[1.0]], "g": [0.0]}, [], ["-inf"], ["inf"], [1.0], "long|quadratic1"),
+                 G.raw(2, {"H": [[1.0, 0.0], [0.0, 2.0]], "g": [-2.0, 4.0]}, [{"a": [1.0, 1.0], "b": 0.0, "lb": -0.5, "ub": 0.25}], [-0.5, -0.75], [0.75, "inf"],
+                       [0.3, -0.7], "long|qdiag_ranged")):
+        for opts in ("plain", "single"):
+            for linit in ((1000.0,) if tier == "quick" else (100.0, 1000.0, 10000.0)):
+                c = default(); c["control"] = "Fixed"; c["iteration_limit"] = 25000 if tier == "quick" else 60000; c["opts"] = opts
+                c["params"] = {"lamb_init": linit}
+                out.append({"spec": spec, "cfg": c, "sc": None})
     return out
 
 
